@@ -44,6 +44,7 @@ type langEvent struct {
 	Out        string    `json:"out"`
 	Translated []langKey `json:"translated"`
 	Tags       []langTag `json:"tags"`
+	Why        string    `json:"why"` // text of the error, if any
 }
 
 var tagRe = regexp.MustCompile(`\[(T|L|S):([a-z0-9_]+):([a-z]+)\]`)
@@ -64,8 +65,10 @@ func cmdLangRun(args []string) error {
 	langs := []string{"nor", "fra", "swa"}
 	nodes := map[string][]Instr{
 		"root":   {{Op: "MOUT", A: "item", B: "1"}, {Op: "MOUT", A: "other", B: "2"}, {Op: "HALT"}, {Op: "INCMP", A: "sw", B: "1"}, {Op: "INCMP", A: "sub", B: "2"}},
-		"sw":     {{Op: "LOAD", A: "setlang", N: 0}, {Op: "MOUT", A: "back", B: "0"}, {Op: "HALT"}, {Op: "INCMP", A: "_", B: "0"}, {Op: "INCMP", A: "sub", B: "2"}},
-		"sub":    {{Op: "LOAD", A: "txt", N: 0}, {Op: "MAP", A: "txt"}, {Op: "MOUT", A: "back", B: "0"}, {Op: "HALT"}, {Op: "INCMP", A: "_", B: "0"}, {Op: "INCMP", A: "sw", B: "1"}},
+		// (sub is only entered from root and only left upwards: the static symbol is loaded afresh, in the language the session
+		// has at that request, every time the node is shown - a symbol still visible from an earlier visit would rightly be kept)
+		"sw":     {{Op: "LOAD", A: "setlang", N: 0}, {Op: "MOUT", A: "back", B: "0"}, {Op: "HALT"}, {Op: "INCMP", A: "_", B: "0"}, {Op: "INCMP", A: "_", B: "2"}},
+		"sub":    {{Op: "LOAD", A: "txt", N: 0}, {Op: "MAP", A: "txt"}, {Op: "MOUT", A: "back", B: "0"}, {Op: "HALT"}, {Op: "INCMP", A: "_", B: "0"}, {Op: "INCMP", A: "_", B: "1"}},
 		"_catch": {{Op: "MOUT", A: "back", B: "0"}, {Op: "HALT"}, {Op: "INCMP", A: "_", B: "*"}},
 	}
 	nreqs := 0
@@ -119,8 +122,10 @@ func cmdLangRun(args []string) error {
 		}
 		put(db.DATATYPE_STATICLOAD, "txt", "S", "txt")
 		store.SetLock(0, true) // seal
+		// mode "S": persisted operation with ONE resource object kept by the application for all requests of all sessions
+		sharedRs := resource.NewDbResource(store).With(db.DATATYPE_STATICLOAD)
 		for si := 0; si < nsess; si++ {
-			mode := []string{"L", "P"}[si%2]
+			mode := []string{"L", "P", "S"}[si%3]
 			sid := fmt.Sprintf("a%d.s%d", ai, si)
 			codes := []string{"nor", "fra", "xx", "swa", "en", "no"}
 			ncall := rng.Intn(6)
@@ -136,11 +141,14 @@ func cmdLangRun(args []string) error {
 			n := 1 + rng.Intn(maxreq)
 			for j := 0; j < n; j++ {
 				var pe *persist.Persister
-				if mode == "P" || en == nil {
-					rs := resource.NewDbResource(store)
+				if mode != "L" || en == nil {
+					rs := resource.NewDbResource(store).With(db.DATATYPE_STATICLOAD)
+					if mode == "S" {
+						rs = sharedRs
+					}
 					rs.AddLocalFunc("setlang", setlang)
 					en = engine.NewEngine(engine.Config{Root: "root", FlagCount: 2, SessionId: sid}, rs)
-					if mode == "P" {
+					if mode != "L" {
 						pe = persist.NewPersister(stateStore)
 						en = en.WithPersister(pe)
 					} else {
@@ -166,8 +174,13 @@ func cmdLangRun(args []string) error {
 					if err == nil {
 						_, ferr := en.Flush(ctx, w)
 						ev.Err = ferr != nil
+						if ferr != nil {
+							ev.Why = "flush: " + ferr.Error()
+						}
+					} else {
+						ev.Why = "exec: " + err.Error()
 					}
-					if mode == "P" {
+					if mode != "L" {
 						st = pe.GetState()
 						// in persisted mode the resource handle is shared: do not close it (Finish closes the resource's db)
 						pe.Save(sid)
